@@ -8,7 +8,7 @@
 
 // ---------------------------------------------------------------- sanitizer defaults: classify hits by exit status
 extern "C" __attribute__((used, visibility("default"))) const char *__asan_default_options() {
-    return "exitcode=77:detect_leaks=0:abort_on_error=0:allocator_may_return_null=1:detect_stack_use_after_return=0:handle_segv=1:quarantine_size_mb=8:thread_local_quarantine_size_kb=64";
+    return "exitcode=77:detect_leaks=0:abort_on_error=0:allocator_may_return_null=1:detect_stack_use_after_return=0:handle_segv=1:quarantine_size_mb=8:thread_local_quarantine_size_kb=64:redzone=256";
 }
 extern "C" __attribute__((used, visibility("default"))) const char *__ubsan_default_options() { return "print_stacktrace=1:halt_on_error=1:exitcode=77"; }
 
